@@ -41,6 +41,20 @@ def main(argv):
                 for (blk, si, k, e) in a.ret_sites():
                     print('  bb%d L%d %s %s' % (blk, a.line(blk, si if si < 10**6 else None), k, flow.show(e)[:200]))
         return 0
+    if cmd == 'baseline':
+        # (maintainer command) freeze the function decomposition of the tree under /repo as the baseline of xl/inline.py
+        import json, os
+        from . import facts, inline
+        if os.path.exists(inline.BASELINE) and '--force' not in argv:
+            print('baseline exists; pass --force to overwrite')
+            return 2
+        if os.path.exists(inline.BASELINE):
+            os.rename(inline.BASELINE, inline.BASELINE + '.old')
+        F = facts.load()
+        ps = inline.fn_paths(F)
+        json.dump(ps, open(inline.BASELINE, 'w'), indent=0)
+        print('baseline: %d functions' % len(ps))
+        return 0
     if cmd == 'setup':
         from . import runner
         return runner.setup()
